@@ -11,7 +11,7 @@ CHECKS = {
 }
 CHECKS.update({
  "C04": ("exploration", "reference-model monitor: list-of-surviving-records model shadowing writer programs, then sequential/skip, random-access and seek-next-from-every-offset read-back",
-         "Seeded writer programs (incl. seek-back) x 4 compressions x buffer sizes x buffered/direct I/O are executed with the real writer and read back through every reader/access path; SeekNext is compared with the model at every byte offset of small files. Exploration: bounded by the seeded case list, biased to marker bytes and buffer/page/4KiB-window boundaries.",
+         "Seeded writer programs (incl. seek-back) x 4 compressions x buffer sizes x buffered/direct I/O are executed with the real writer and read back through every reader/access path (sequential ReadNext/SkipNext mixes through the buffered and the direct-I/O reader factory, ReadNextAt, SeekNext); SeekNext is compared with the model at every byte offset of small files. Exploration: bounded by the seeded case list, biased to marker bytes and buffer/page/4KiB-window boundaries.",
          "trusts the 90-line independent layout parser only as a cross-check; payloads embedding a complete valid record image are excluded (format-level ambiguity)", "§3 C04", "E1"),
  "C12": ("fault_enumeration", "fault enumeration on generated files: every truncation length, every record-header byte x 255 values, every unsupported file-header value; oracle = independent layout parser + written records",
          "For each generated file every truncation length and every single-byte alteration of every record-header byte (all 255 values on small files) is materialised and read with both readers; the oracle demands genuine records only. Exhaustive over single-byte header damage for the generated files, sampled over files.",
